@@ -195,3 +195,14 @@ claim("C06",
       "result must equal the serial run.",
       TB + " Scheduler stub contract: workers interact only through the two queues.", "symbolic execution (CrossHair+z3) of merge histories and of the SumTrees scheduler with symbolic schedules through queue stubs",
       "DESIGN.md 3/C06")
+
+claim("C09",
+      "Bounded symbolic execution of matrix writers and readers: for every data type x format pair the format can represent (one shard each), "
+      "matrices of 1..3 taxa x 1..3 characters whose cells run over the type's FULL symbol set (a symbolic base symbol, the other cells rotated "
+      "relative to it, so every fundamental state, gap, missing and ambiguity code occurs in every position across the paths), built by a "
+      "symbolic choice of construction route (from_dict, parsed from NEXUS, concatenate, export_character_indices), PHYLIP strict/relaxed x "
+      "sequential/interleaved; sequence lengths around the line-wrapping widths; labels needing quotes; data sets with 1..3 taxon namespaces "
+      "(labels absent/distinct/identical and needing escaping) through NEXUS and NeXML. Oracle: same taxa in order, same symbol strings / equal "
+      "continuous values, every component back on a namespace with exactly its own labels. Text is concrete per path.",
+      TB, "symbolic-choice driven (CrossHair+z3) exhaustive walk over symbol sets, dimensions, construction routes and format options through real writers and readers",
+      "DESIGN.md 3/C09")
